@@ -206,16 +206,18 @@ Fixpoint copy_nodes (tbl : ttable) (h : heap) (roots : list addr) : heap * list 
 Inductive sop :=
 | SAddPod (i : nat) (key : Z)           (* ExistingNode.Add on the i-th node handed to the scheduler *)
 | SNewClaim (s : nat) (mask : list bool) (* filter provider slice s into a new slice, then OrderByPrice sorts that slice *)
+| SPrecompute (t : nat)                 (* fits() -> AllocatableOfferingsList(): sync.Once precompute of provider instance type t *)
 | PNominate (i : nat) (until : Z)       (* Results.Record -> cluster.NominateNodeForPod: the cluster's OWN i-th node *)
 | PMark (pod : Z).                      (* Cluster.MarkPodSchedulingDecisions touches the bookkeeping of this pod *)
 
 Definition is_sim_op (o : sop) : bool :=
-  match o with SAddPod _ _ | SNewClaim _ _ => true | _ => false end.
+  match o with SAddPod _ _ | SNewClaim _ _ | SPrecompute _ => true | _ => false end.
 
 Record env := mkEnv {
   e_tbl : ttable;
   e_roots : list addr;    (* the cluster's StateNodes *)
   e_slices : list addr;   (* the provider's instance-type slices *)
+  e_types : list addr;    (* the provider's InstanceType structs (Capacity, Overhead, override maps hang off them) *)
   e_book : addr           (* the cluster's pod bookkeeping *)
 }.
 
@@ -258,10 +260,29 @@ Definition new_claim (h : heap) (slice : addr) (mask : list bool) : heap :=
   let '(h1, u) := alloc h (CLeaf (mask_filter (leaf_of h slice) mask)) in   (* remaining := InstanceTypes{}; append *)
   write h1 u (CLeaf (sort_z (leaf_of h1 u))).                                (* sort.Slice on that slice *)
 
+(* InstanceType.precompute behind sync.Once: the allocatable groups are computed from the provider's Capacity,
+   Overhead and per-offering override maps into NEW maps (lo.Assign, resources.Subtract allocate); the only
+   provider-owned word written is the cache field itself, and only while it is unset. *)
+Definition precompute (h : heap) (a : addr) : heap :=
+  match cells h a with
+  | CObj ty fs =>
+      if String.eqb ty "InstanceType" then
+        match lookup fs "allocatableOfferings" with
+        | Some (VRef (Some _)) => h
+        | _ =>
+            let cap := match get_field h a "InstanceType" "Capacity" with Some m => leaf_of h m | None => [] end in
+            let '(h1, u) := alloc h (CLeaf cap) in
+            set_field h1 a "allocatableOfferings" (VRef (Some u))
+        end
+      else h
+  | _ => h
+  end.
+
 Definition step (e : env) (copies : list (option addr)) (h : heap) (o : sop) : heap :=
   match o with
   | SAddPod i key => match nth i copies None with Some c => en_add h c key | None => h end
   | SNewClaim s mask => match nth_error (e_slices e) s with Some a => new_claim h a mask | None => h end
+  | SPrecompute t => match nth_error (e_types e) t with Some a => precompute h a | None => h end
   | PNominate i t => match nth_error (e_roots e) i with Some r => set_field h r "nominatedUntil" (VInt t) | None => h end
   | PMark pod => leaf_append h (e_book e) pod
   end.
@@ -361,6 +382,7 @@ Record obs := mkObs {
   o_copy_written : list string;       (* StateNode fields that differ between the scheduler's copies and the cluster's nodes *)
   o_placed : bool;                    (* some pod was placed on an existing node *)
   o_fresh : bool;                     (* every new NodeClaim carries a slice that is not one of the provider's *)
+  o_cache_fresh : bool;               (* every computed allocatable group owns its map (shares nothing with provider maps) *)
   o_now : Z; o_window : Z;
   o_nom : list (Z * bool * Z);        (* per cluster node: nominatedUntil before, received a real pod, nominatedUntil after *)
   o_rejected : list Z;                (* pending pods failing Provisioner.Validate *)
